@@ -91,7 +91,7 @@ def build(repo, findings):
         im.after_line(r'^\s*\}\);$', tail, fn_name=fn)
     im.sig('function_call_depth', ret='r', ensures=[C('C18 depth-accessor', 'r == self.func_call_depth')])
     im.sig('script_source_depth', ret='r', ensures=[C('C18 depth-accessor', 'r == self.script_source_depth')])
-    im.sig('is_trap_signal_active', ret='r', ensures=[C('C16 active-test', 'r == self.active_trap_signals@.contains(signal)')])
+    im.sig('is_trap_signal_active', ret='r', ensures=[C('C16,C01 active-test (the guard that keeps a trap handler from re-entering itself without bound)', 'r == self.active_trap_signals@.contains(signal)')])
     im.sig('is_trap_delivery_suppressed', ret='r', ensures=[C('C16 suppressed-test', 'r == (self.trap_delivery_suppress_count > 0)')])
     im.sig('acquire_trap_delivery_block', requires=[C('aux room', 'old(self).trap_delivery_suppress_count < usize::MAX')], ensures=[
         C('C16 block-count-plus-one', 'final(self).trap_delivery_suppress_count == old(self).trap_delivery_suppress_count + 1 && final(self).frames == old(self).frames && final(self).func_call_depth == old(self).func_call_depth && final(self).script_source_depth == old(self).script_source_depth && final(self).active_trap_signals == old(self).active_trap_signals')])
